@@ -537,6 +537,23 @@ impl chain::Listen for Watcher {
     }
 }
 
+/// Verification hooks (feature `verif`, off by default): read-only projection of the in-memory state.
+#[cfg(feature = "verif")]
+impl Watcher {
+    /// Returns the (locator, dispute txid) pairs held in the locator cache and the last known block height.
+    pub fn verif_state(&self) -> (Vec<(Locator, bitcoin::Txid)>, u32) {
+        let cache = self.locator_cache.lock().unwrap();
+        (
+            cache
+                .verif_entries()
+                .into_iter()
+                .map(|(l, tx)| (l, tx.compute_txid()))
+                .collect(),
+            self.last_known_block_height.load(Ordering::Acquire),
+        )
+    }
+}
+
 #[cfg(test)]
 mod tests {
     use super::*;
